@@ -41,6 +41,22 @@ def const_table(text, name):
     return re.findall(r"\"([^\"]*)\"", body)
 
 
+def const_table_pairs(text, name):
+    """`const NAME: … = &[ ("a", &impl_a), … ];` → [("a", "impl_a"), …] (name and the path it is bound to)."""
+    if text is None:
+        return None
+    m = re.search(r"const\s+" + name + r"\s*:[^=]*=\s*&\s*\[(.*?)\]\s*;", strip_comments(text), flags=re.S)
+    if not m:
+        return None
+    ps = re.findall(r"\(\s*\"([^\"]*)\"\s*,\s*&?\s*([A-Za-z0-9_:]+)\s*\)", m.group(1))
+    names = re.findall(r"\(\s*\"([^\"]*)\"\s*,", m.group(1))
+    return ps if ps and len(ps) == len(names) else None
+
+
+def lean_pairs(ps):
+    return "[" + ", ".join("(%s, %s)" % (json.dumps(a), json.dumps(b)) for a, b in ps) + "]"
+
+
 def lean_str_list(xs):
     return "[" + ", ".join(json.dumps(x) for x in xs) + "]"
 
@@ -65,6 +81,8 @@ interp_txt = read("rscel/src/interp/interp.rs")
 default_funcs = item("DEFAULT_FUNCS", const_table(funcs_txt, "DEFAULT_FUNCS"))
 default_macros = item("DEFAULT_MACROS", const_table(macros_txt, "DEFAULT_MACROS"))
 compile_macros = item("COMPILE_MACROS", const_table(macros_txt, "COMPILE_MACROS"))
+default_macro_impls = item("DEFAULT_MACROS impls", const_table_pairs(macros_txt, "DEFAULT_MACROS"))
+compile_macro_impls = item("COMPILE_MACROS impls", const_table_pairs(macros_txt, "COMPILE_MACROS"))
 clock_functions = item("CLOCK_FUNCTIONS", const_table(compiler_txt, "CLOCK_FUNCTIONS"))
 
 type_table = None
@@ -291,6 +309,9 @@ namespace Rscel.Generated
 def defaultFuncs : Option (List String) := {opt(default_funcs)}
 def defaultMacros : Option (List String) := {opt(default_macros)}
 def compileMacros : Option (List String) := {opt(compile_macros)}
+/-- (macro name, the function it is bound to) as written in the two tables. -/
+def defaultMacroImpls : Option (List (String × String)) := {opt(default_macro_impls, lean_pairs)}
+def compileMacroImpls : Option (List (String × String)) := {opt(compile_macro_impls, lean_pairs)}
 def clockFunctions : Option (List String) := {opt(clock_functions)}
 def typeTable : Option (List (String × String)) := {opt(type_table, lambda ps: "[" + ", ".join("(%s, %s)" % (json.dumps(a), json.dumps(b)) for a, b in ps) + "]")}
 def constructable : Option (List String) := {opt(constructable)}
